@@ -58,6 +58,8 @@ pub enum RegMode {
     /// receipt with more slots but the same expiry
     SameExpiry,
     BadSig,
+    /// a receipt (extending) that the tower really signed, but for somebody else: the reply names that other user
+    OtherUser,
     NonJson,
     ApiError,
 }
@@ -216,6 +218,21 @@ fn reg_reply(idx: u32, st: &mut TState, req: &Value) -> (u32, Vec<u8>) {
             st.slots += 100;
             st.expiry += 10;
             (200, mk(6, st))
+        }
+        RegMode::OtherUser => {
+            st.slots += 100;
+            st.expiry += 10;
+            let other = UserId(tower_key(7).1);
+            let mut r = RegistrationReceipt::new(other, st.slots, st.start, st.expiry);
+            r.sign(&tower_key(idx).0);
+            let resp = msgs::RegisterResponse {
+                user_id: other.to_vec(),
+                available_slots: st.slots,
+                subscription_start: st.start,
+                subscription_expiry: st.expiry,
+                subscription_signature: r.signature().unwrap(),
+            };
+            (200, serde_json::to_vec(&resp).unwrap())
         }
         RegMode::NonJson => (200, b"registration is closed".to_vec()),
         RegMode::ApiError => (400, serde_json::to_vec(&json!({"error": "resource exhausted", "error_code": teos_common::errors::REGISTRATION_RESOURCE_EXHAUSTED})).unwrap()),
